@@ -1055,7 +1055,8 @@ template<class C, class K, class V, bool ORD, bool ISSET> struct EqCase
 		c.desc(vf::fmt("%s pair, pattern %s, %d entries, universe: %s", fam, pat.c_str(), n, about.c_str()));
 		c.count((std::string("pattern.") + pat).c_str());
 		c.count((std::string("kind.") + fam).c_str());
-		std::unique_ptr<C> A(r.chance(0.3) && !ORD ? sized<C>(1 << r.below(6), OrdTag()) : new C()), B;
+		int asz = r.chance(0.3) && !ORD ? 1 << r.below(6) : 0;  // A sometimes starts with a small table
+		std::unique_ptr<C> A(asz ? sized<C>(asz, OrdTag()) : new C()), B;
 		std::vector<MK> oa = keys, ob = keys;
 		shuffle_vec(r, oa);
 		build(*A, ma, oa, false);
@@ -1099,8 +1100,8 @@ template<class C, class K, class V, bool ORD, bool ISSET> struct EqCase
 			build(*B, mb, ob, false);
 			break;
 		}
-		case 3:
-			B.reset(new C());
+		case 3:  // same insertion order into a table of the same initial size: same layout
+			B.reset(asz ? sized<C>(asz, OrdTag()) : new C());
 			build(*B, mb, oa, false);
 			break;
 		case 4: {
